@@ -462,6 +462,13 @@ INJECTOR_NAMES_2 = {
 
 # ---- round 10 (hunt on the unchanged tree): reproducers of the repaired defects and of the recorded findings
 ROUND10 = {
+    'BIND_STRUCT2': 'package main\n\nimport "github.com/mazrean/kessoku"\n\ntype Store interface{ Name() string }\ntype Lag int\ntype Primary struct{ n string }\ntype Replica struct {\n\tLag Lag\n\tn   string\n}\n\nfunc (p *Primary) Name() string { return p.n }\nfunc (r *Replica) Name() string { return r.n }\n\nfunc NewStores() (*Primary, *Replica) { return &Primary{"primary"}, &Replica{Lag: 3, n: "replica"} }\n\ntype App struct {\n\tS Store\n\tL Lag\n\tP *Primary\n}\n\nfunc NewApp(s Store, l Lag, p *Primary) *App { return &App{s, l, p} }\n\nvar _ = kessoku.Inject[*App]("InitApp", kessoku.Provide(NewStores), kessoku.Bind[Store](kessoku.Struct[*Replica]()), kessoku.Provide(NewApp))\n\nfunc main() {\n\tvar f func() *App = InitApp\n\ta := f()\n\tif a.S.Name() != "replica" || a.L != 3 || a.P.Name() != "primary" {\n\t\tpanic("wrong result")\n\t}\n}\n',
+    'BIND_STRUCT_NOFIELDS': 'package main\n\nimport "github.com/mazrean/kessoku"\n\ntype Greeter interface{ Greet() string }\ntype impl struct{ s string }\n\nfunc (i *impl) Greet() string { return i.s }\nfunc NewImpl() *impl          { return &impl{"hi"} }\n\ntype App struct{ G Greeter }\n\nfunc NewApp(g Greeter) *App { return &App{g} }\n\nvar _ = kessoku.Inject[*App]("InitApp", kessoku.Provide(NewImpl), kessoku.Bind[Greeter](kessoku.Struct[*impl]()), kessoku.Provide(NewApp))\n\nfunc main() {\n\tvar f func() *App = InitApp\n\tif f().G.Greet() != "hi" {\n\t\tpanic("wrong result")\n\t}\n}\n',
+    'LOCAL_SET2': 'package main\n\nimport "github.com/mazrean/kessoku"\n\ntype A struct{}\ntype B struct{ a *A }\ntype App struct{ b *B }\n\nfunc NewA() *A          { return &A{} }\nfunc NewB(a *A) *B      { return &B{a} }\nfunc NewApp(b *B) *App  { return &App{b} }\n\nfunc wiring() {\n\tbase, extra := kessoku.Set(kessoku.Provide(NewA)), kessoku.Set(kessoku.Provide(NewB))\n\t_ = kessoku.Inject[*App]("InitApp", base, extra, kessoku.Provide(NewApp))\n}\n\nfunc main() {\n\tvar f func() *App = InitApp\n\tif f().b.a == nil {\n\t\tpanic("wrong result")\n\t}\n}\n',
+    'LOCAL_SET2_DUP': 'package main\n\nimport "github.com/mazrean/kessoku"\n\ntype A struct{}\ntype B struct{ a *A }\ntype App struct{ b *B }\n\nfunc NewA() *A          { return &A{} }\nfunc NewB(a *A) *B      { return &B{a} }\nfunc NewB2() *B          { return &B{} }\nfunc NewApp(b *B) *App  { return &App{b} }\n\nfunc wiring() {\n\tbase, extra := kessoku.Set(kessoku.Provide(NewA)), kessoku.Set(kessoku.Provide(NewB), kessoku.Provide(NewB2))\n\t_ = kessoku.Inject[*App]("InitApp", base, extra, kessoku.Provide(NewApp))\n}\n\nfunc main() {\n}\n',
+    'SELF_FIELD_DUP': 'package main\n\nimport "github.com/mazrean/kessoku"\n\ntype Node struct {\n\tParent *Node\n\tName   string\n}\ntype App struct{ n string }\n\nfunc NewRoot() *Node     { return &Node{Name: "root"} }\nfunc NewApp(n string) *App { return &App{n} }\n\nvar _ = kessoku.Inject[*App]("InitApp", kessoku.Provide(NewRoot), kessoku.Struct[*Node](), kessoku.Provide(NewApp))\n\nfunc main() {}\n',
+    'NAME_TAKEN_FUNCBODY': 'package main\n\nimport "github.com/mazrean/kessoku"\n\ntype DB struct{}\ntype Server struct{ d *DB }\n\nfunc NewDB() *DB            { return &DB{} }\nfunc NewServer(d *DB) *Server { return &Server{d} }\n\nfunc InitServer() *Server { return NewServer(NewDB()) }\n\nfunc wiring() {\n\tbase := kessoku.Set(kessoku.Provide(NewDB))\n\t_ = kessoku.Inject[*Server]("InitServer", base, kessoku.Provide(NewServer))\n}\n\nfunc main() { _ = InitServer() }\n',
+    'BUILTIN_ERROR_ASYNC': 'package main\n\nimport (\n\t"context"\n\n\t"github.com/mazrean/kessoku"\n)\n\ntype error struct {\n\tCode int\n\tMsg  string\n}\n\ntype A struct{}\ntype C struct{}\ntype B struct{ a *A }\n\nfunc NewA() *A           { return &A{} }\nfunc NewC() *C           { return &C{} }\nfunc NewB(a *A, c *C) *B { return &B{a} }\n\nvar _ = kessoku.Inject[*B]("InitB", kessoku.Async(kessoku.Provide(NewA)), kessoku.Async(kessoku.Provide(NewC)), kessoku.Provide(NewB))\n\nfunc main() {\n\t_ = error{}\n\tif InitB(context.Background()) == nil {\n\t\tpanic("wrong result")\n\t}\n}\n',
     'DOT_KESSOKU': 'package main\n\nimport (\n\t"context"\n\n\t. "github.com/mazrean/kessoku"\n)\n\ntype DB struct{ S string }\ntype Cache struct{}\ntype App struct {\n\tD *DB\n\tC *Cache\n}\n\nfunc NewDB() (*DB, error)         { return &DB{"db"}, nil }\nfunc NewCache() *Cache            { return &Cache{} }\nfunc NewApp(d *DB, c *Cache) *App { return &App{d, c} }\n\nvar _ = Inject[*App]("InitApp", Async(Provide(NewDB)), Async(Provide(NewCache)), Provide(NewApp))\n\nfunc main() {\n\ta, err := InitApp(context.Background())\n\tif err != nil || a.D.S != "db" {\n\t\tpanic("wrong result")\n\t}\n}\n',
     'ERR_NOT_LAST': 'package main\n\nimport (\n\t"errors"\n\n\t"github.com/mazrean/kessoku"\n)\n\ntype Conn struct{ S string }\ntype Warning interface{ Error() string }\ntype App struct {\n\tC *Conn\n\tW Warning\n}\n\nfunc Open() (*Conn, error, Warning) { return &Conn{"c"}, nil, errors.New("deprecated driver") }\nfunc NewApp(c *Conn, w Warning) *App { return &App{c, w} }\n\nvar _ = kessoku.Inject[*App]("InitApp", kessoku.Provide(Open), kessoku.Provide(NewApp))\n\ntype Svc struct{ C *Conn }\n\nfunc Dial() (error, *Conn)  { return nil, &Conn{"d"} }\nfunc NewSvc(c *Conn) *Svc   { return &Svc{c} }\n\nvar _ = kessoku.Inject[*Svc]("InitSvc", kessoku.Provide(Dial), kessoku.Provide(NewSvc))\n\nfunc main() {\n\ta, err := InitApp()\n\tif err != nil || a == nil || a.C.S != "c" || a.W == nil || a.W.Error() != "deprecated driver" {\n\t\tpanic("wrong result")\n\t}\n\ts, err := InitSvc()\n\tif err != nil || s.C.S != "d" {\n\t\tpanic("wrong result")\n\t}\n}\n',
     'BIND_STRUCT': 'package main\n\nimport "github.com/mazrean/kessoku"\n\ntype Namer interface{ Name() string }\ntype Port int\ntype Config struct {\n\tPort Port\n\tname string\n}\n\nfunc (c *Config) Name() string { return c.name }\nfunc NewConfig() *Config       { return &Config{Port: 5, name: "cfg"} }\n\ntype App struct {\n\tN Namer\n\tP Port\n}\n\nfunc NewApp(n Namer, p Port) *App { return &App{n, p} }\n\nvar _ = kessoku.Inject[*App]("InitApp", kessoku.Provide(NewConfig), kessoku.Bind[Namer](kessoku.Struct[*Config]()), kessoku.Provide(NewApp))\n\nfunc main() {\n\tvar f func() *App = InitApp\n\ta := f()\n\tif a.N.Name() != "cfg" || a.P != 5 {\n\t\tpanic("wrong result")\n\t}\n}\n',
@@ -658,6 +665,13 @@ def _stage(seed, tier, key="N-x"):
     pkgs.append(("func_type", {"k.go": R["FUNC_TYPE"]}, ["k.go"], None, dict(kind="providers of a defined / alias function type", run=True, expect_accept=True, expect_funcs={"k_band.go": ["InitApp"]})))
     pkgs.append(("struct_alias_ptr", {"k.go": R["STRUCT_ALIAS_PTR"]}, ["k.go"], None, dict(kind="Struct of an alias of a pointer type", run=True, expect_accept=True, expect_funcs={"k_band.go": ["InitApp"]})))
     pkgs.append(("dot_kessoku", {"k.go": R["DOT_KESSOKU"]}, ["k.go"], None, dict(kind="kessoku itself dot-imported", run=True, expect_accept=True, expect_funcs={"k_band.go": ["InitApp"]})))
+    pkgs.append(("bind_struct2", {"k.go": R["BIND_STRUCT2"]}, ["k.go"], None, dict(kind="Bind over a Struct expansion whose struct is the SECOND result of its provider", run=True, value_check=True, expect_params={"k_band.go": {"InitApp": []}})))
+    pkgs.append(("bind_struct_nofields", {"k.go": R["BIND_STRUCT_NOFIELDS"]}, ["k.go"], None, dict(kind="Bind over a Struct expansion without exported fields", run=True, value_check=True, expect_params={"k_band.go": {"InitApp": []}})))
+    pkgs.append(("local_set2", {"k.go": R["LOCAL_SET2"]}, ["k.go"], None, dict(kind="two Sets held in one := statement", run=True, value_check=True, expect_params={"k_band.go": {"InitApp": []}})))
+    pkgs.append(("local_set2_dup", {"k.go": R["LOCAL_SET2_DUP"]}, ["k.go"], None, dict(kind="a duplicate supplier inside a Set held in a multi-variable := statement", expect_refused="multiple providers")))
+    pkgs.append(("self_field_dup", {"k.go": R["SELF_FIELD_DUP"]}, ["k.go"], None, dict(kind="an expanded struct with a field of its own pointer type: two suppliers of *Node", expect_refused="multiple providers")))
+    pkgs.append(("name_taken_funcbody", {"k.go": R["NAME_TAKEN_FUNCBODY"]}, ["k.go"], None, dict(kind="an Inject inside a function body named like a function of the package", run=True)))
+    pkgs.append(("builtin_error_async", {"k.go": R["BUILTIN_ERROR_ASYNC"]}, ["k.go"], None, dict(kind="a package-level type error, goroutines without fallible providers", run=True)))
     pkgs.append(("local_set", {"k.go": R["LOCAL_SET"]}, ["k.go"], None, dict(kind="a Set held in a := variable", run=True, value_check=True, expect_params={"k_band.go": {"InitApp": []}})))
     pkgs.append(("shared_set_dot", {"k.go": R["SHARED_SET_DOT"], "lib/l.go": R["SHARED_SET_DOT_LIB"]}, ["k.go"], None, dict(kind="imports: a Set shared by two injectors, one provider dot-imported", run=True)))
     pkgs.append(("name_taken_a", {"k.go": R["NAME_TAKEN_A"]}, ["k.go"], None, dict(kind="an injector named like a function of the package", run=True)))
